@@ -163,6 +163,19 @@ func flipRate(r float64) float64 {
 	return r
 }
 
+// siblingProgram returns another import path whose last element is p's.
+func siblingProgram(p string) string {
+	switch {
+	case p == "":
+		return p
+	case strings.HasPrefix(p, "example.com/"):
+		return "example.net/x/" + strings.TrimPrefix(p, "example.com/")
+	case strings.HasPrefix(p, "example.net/x/"):
+		return "example.com/" + strings.TrimPrefix(p, "example.net/x/")
+	}
+	return "example.com/" + p // cmd/go and example.com/cmd/go
+}
+
 type build struct {
 	prog, ver, gv string
 	plat          [2]string
@@ -195,6 +208,12 @@ func WriteCounterFile(t *simrt.Tape, s *simrt.Sim, dir string, begin time.Time, 
 		gv = []string{"go1.22.10", "go1.22", "go1.21rc1", "go1.21.00", "Go1.21.0", "devel +abc123"}[t.Draw(6)]
 		if pp.Versions == nil {
 			ver = gv
+		}
+	case 8, 9: // the previous file's build under another import path with the same last element:
+		// the two share every part of their counter files' names and are still two programs
+		if b, ok := prevBuild[s]; ok {
+			prog, ver, gv, plat = siblingProgram(b.prog), b.ver, b.gv, b.plat
+			s.Probe("programs-sharing-last-path-element")
 		}
 	case 6, 7: // a metadata value that is empty
 		switch t.Draw(5) {
